@@ -71,4 +71,6 @@ def classify(case):
         ks.append("K15")
     if "HQ" in hz:
         ks.append("K19")
+    if "HP" in hz:
+        ks.append("K20")
     return hz, ks
